@@ -1674,7 +1674,7 @@ def _convert_if_zero(value: Any, atol: float = 1e-12):
         if np.allclose(value, 0, atol=atol):
             return zero
     elif sparse.issparse(value):
-        if value.count_nonzero() == 0:
+        if np.abs(value.tocoo().data).max(initial=0) <= atol:
             return zero
     elif isinstance(value, sympy.MatrixBase):
         if value.is_zero_matrix:
